@@ -17,40 +17,40 @@ CHECKS = {
                 text="Every world up to N entries over a colliding name set in every child order, every built glob up to size 3 (4 in the thorough tier) of the file-system alphabet, both link behaviours, six base spellings and rooted / ./ ../ a/../ variants are walked for real on tmpfs; the multiset of yielded files must equal the reference traversal filtered with is_match.",
                 ref="DESIGN.md §3 C02, §2.3", note=FS_NOTE + " is_match itself is C01's business."),
     "C03": dict(cat="model_checking", tech="explicit-state BFS of installed partition DFAs x whole-pattern DFA x ancestor monitor; exhaustive real walks",
-                text="(ii) For every negation the two installed partition programs (hook H3) are explored in product with the whole pattern and the canonical-ancestor monitor over all canonical paths: completeness and tree-discard soundness. (i) Every world x six underlying walks x every negation form is walked for real and compared with per-entry filtering.",
+                text="(ii) For every negation the two installed partition programs (hook H3) are explored in product with the whole pattern and the canonical-ancestor monitor over all canonical paths: completeness and tree-discard soundness. (i) Every world (link-free, and with a symbolic link to a directory read as a file) x eight underlying walks x every negation form is walked for real and compared with per-entry filtering.",
                 ref="DESIGN.md §3 C03", note=MC_NOTE + " " + FS_NOTE),
     "C13": dict(cat="exploration", tech="stateless exhaustive exploration of verdict histories (deviation-bounded) over real walks",
-                text="Every world x base walk x every set of layers from the menu in every permutation x every filter verdict history with at most k departures from 'keep' (re-execution, branching on every logged call): what the downstream consumer is fed must equal the pruned-tree model.",
+                text="Every world x base walk x every set of layers from the menu in every permutation x every filter verdict history with at most k departures from 'keep' (re-execution, branching on every logged call): what the downstream consumer is fed must equal the pruned-tree model; link worlds are explored reading links as files and reading link targets.",
                 ref="DESIGN.md §3 C13, Appendix C", note=FS_NOTE),
     "C14": dict(cat="exploration", tech="exhaustive enumeration of worlds x globs x base spellings; entry equations on every yielded entry",
-                text="Every entry yielded by every walk of the C02 space (six base spellings, rooted variant, path walks) is checked against the entry self-consistency equations.",
+                text="Every entry yielded by every walk of the C02 space (six base spellings, rooted variant, path walks) is checked against the entry self-consistency equations; plus fixed trees of non-UTF-8 and unusual names (backslash, meta-characters, white space) and walks with depth and link behaviours.",
                 ref="DESIGN.md §3 C14", note=FS_NOTE),
     "C15": dict(cat="exploration", tech="exhaustive enumeration of link worlds x depth behaviours (all constructors) x link behaviours, real walks vs reference traversal",
                 text="Every small world with every placement of one (two) symbolic links of every target kind, ten globs with prefix lengths 0-2, both link behaviours and every (min,max) pair through every DepthBehavior constructor are walked for real; yields and link-cycle errors must equal the reference traversal with walkdir's identity-stack link policy; an item cap detects non-termination.",
                 ref="DESIGN.md §3 C15, Appendix C", note=FS_NOTE),
     "C20": dict(cat="fault_enumeration", tech="exhaustive placement of <= 2 faults x stacks; full item sequence vs reference traversal, run unprivileged",
-                text="Every placement of at most two faults (unreadable directory incl. the root, dangling link, re-entrant link) in every small world, three underlying walks, both link behaviours and combinator stacks aimed at the faulty paths; the complete ordered item sequence (entries and errors with paths and depths) must equal the reference traversal under the pruned-tree model. Runs under uid 65534 so that chmod 000 is effective.",
+                text="Every placement of at most two faults (unreadable directory incl. the root, dangling link, re-entrant link) in every small world, three underlying walks, both link behaviours and combinator stacks aimed at the faulty paths (also two layers discarding the same directory); the complete ordered item sequence (entries and errors with paths and depths) must equal the reference traversal under the pruned-tree model. Runs under uid 65534 so that chmod 000 is effective.",
                 ref="DESIGN.md §3 C20", note=FS_NOTE + " Requires setpriv for permission faults (reported in the evidence when unavailable)."),
     "C16": dict(cat="exploration", tech="stateless exhaustive exploration of stacks x permutations x verdict histories over real walks",
                 text="Same exploration as C13; oracle: every filter layer is called exactly once per fed entry (also for entries discarded upstream), the yield is the set every layer keeps, identical for every permutation of the stack.",
                 ref="DESIGN.md §3 C16", note=FS_NOTE),
     "C01": dict(cat="model_checking", tech="explicit-state BFS of implDFA x referenceDFA x unspecified-clause monitor, all paths",
-                text="For every built expression of the bounded program space whose documented meaning is specified, all reachable states of the product of the implementation's automaton, an independently compiled reference automaton of the documented semantics and the U1-U3 monitor are explored; any state where acceptance differs is a counterexample of unbounded length; every state is replayed through is_match.",
+                text="For every built expression of the bounded program space whose documented meaning is specified, all reachable states of the product of the implementation's automaton, an independently compiled reference automaton of the documented semantics and the U1-U3 monitor are explored; any state where acceptance differs is a counterexample of unbounded length; every state is replayed through is_match. any() of pairs of patterns (text, compiled, nested routes) is decided the same way against the union of the reference languages.",
                 ref="DESIGN.md §3 C01, §2.4", note=MC_NOTE + " The reference is three-valued (U1-U5, DESIGN §2.4)."),
     "C04": dict(cat="exploration", tech="bounded-path exhaustive exploration (automaton-guided: every accepted path up to L) of Program::matched against capture laws",
-                text="For every built expression of the program space, every path up to length L over representative characters that keeps the implementation's automaton alive is visited (so every accepted path up to L is checked); matched/is_match agreement, index range, one-to-one correspondence with the expression's capturing tokens, sub-slice / order / disjointness, gap languages, per-kind shape laws, the capture's own reference sub-language, owned = borrowed.",
+                text="For every built expression of the program space, every path up to length L over representative characters that keeps the implementation's automaton alive is visited (so every accepted path up to L is checked); matched/is_match agreement, index range, one-to-one correspondence (index and span) with the expression's capturing tokens, also on the partitioned glob, sub-slice / order / disjointness, gap languages, per-kind shape laws, the capture's own reference sub-language, owned = borrowed.",
                 ref="DESIGN.md §3 C04, Appendix E", note="Captures are not a regular property of the automaton: path length is genuinely bounded (stated in the evidence). Language laws are skipped where the documented meaning is unspecified (U1-U5)."),
     "C19": dict(cat="exploration", tech="exhaustive enumeration of conversion routes x program space; equal compiled pattern text, queries and matched text on all live paths up to L",
                 text="For every built expression every conversion route (Display+new, Clone, into_owned, FromStr, TryFrom, any of text / compiled / owned / nested, partition of owned vs borrowed) must give the same compiled pattern (hook H1), the same answer to every query and the same matched text at every index (borrowed, to_owned, into_owned) on every live path up to length L.",
                 ref="DESIGN.md §3 C19", note="Equal pattern text implies equal language and group structure (same regex front end); path length bounded for matched text."),
     "C05": dict(cat="exploration", tech="exhaustive short strings + closed bound / depth families in isolated worker processes; every public operation",
-                text="Every string up to length L over the 22-symbol meta alphabet, every expression of the program space, the closed family of repetition bounds at and beyond the machine word and the closed family of nesting depths / widths (isolated in worker processes with address-space and CPU limits so that an abort is observed, not suffered): build, then every public operation and six candidate paths on every built glob; no panic, no abort, errors only of the three documented kinds.",
+                text="Every string up to length L over the 22-symbol meta alphabet, every expression of the program space, the closed family of repetition bounds at and beyond the machine word and the closed family of nesting depths / widths (isolated in worker processes with address-space and CPU limits so that an abort is observed, not suffered): build, then every public operation and six candidate paths on every built glob; no panic, no abort, errors only of the three documented kinds, and a compile error only for a program that is not certainly below the back end's limits.",
                 ref="DESIGN.md §3 C05", note="Trusted base: catch_unwind observes every panic; a worker that dies on a signal is attributed to the case in flight. A CPU-limit kill is reported as inconclusive, not as a verdict."),
     "C17": dict(cat="exploration", tech="exhaustive short strings (with multi-byte characters) + program space; span validity and reference token spans",
                 text="Every string up to length L over the meta alphabet with 金 and é and every expression of the program space: all spans of all build errors lie inside the expression on character boundaries and slice without panicking; capture spans of every built glob and of its partition equal the reference parser's token spans.",
                 ref="DESIGN.md §3 C17", note="Trusted base: the reference parser's token spans (print/parse round trip checked); a span extended left over adjacent flag groups is accepted."),
     "C06": dict(cat="exploration", tech="bounded-exhaustive enumeration of the expression grammar vs a compositional three-valued reference rule checker",
-                text="Every expression of the documented syntax up to the size bound (all arrangements of branches nested to depth 3 at every position, every combination of sibling branches), the reduced alphabet at larger sizes, the corpus and the size family: Glob::new(e).is_ok() must equal the verdict of a reference that evaluates the documented rules over all expansions (not by neighbour inspection); every built glob must report has_root() != Sometimes.",
+                text="Every expression of the documented syntax up to the size bound (all arrangements of branches nested to depth 3 at every position, every combination of sibling branches), the reduced alphabet at larger sizes, the rule alphabet {a, /, *, **} and the boundary alphabet {a, /} at still larger sizes (7 / 9), the corpus and the size family: Glob::new(e).is_ok() must equal the verdict of a reference that evaluates the documented rules over all expansions (not by neighbour inspection); every built glob must report has_root() != Sometimes.",
                 ref="DESIGN.md §3 C06, Appendix D", note="Trusted base: the reference rule checker is right where it is specified (three-valued: unspecified bands are excluded and counted); error kinds are not compared."),
     "C07": dict(cat="model_checking", tech="explicit-state BFS of the product of the implementation's own DFAs of related expressions",
                 text="Algebraic laws between compiled programs, no reference semantics: for every branch site of every built expression the substitution / unrolling family, wrappings of the whole and of sub-sequences, and any() over four construction routes; all reachable tuples of the product of the members' automata.",
@@ -59,7 +59,7 @@ CHECKS = {
                 text="For every built expression: Glob::partition; the law is decided on all reachable canonical states of DFA(original) x DFA(prefix followed by postfix) and every such state is replayed through the real Path::strip_prefix and postfix matcher; plus never-rooted, idempotence, suffix text, rebuild equivalence and capture spans.",
                 ref="DESIGN.md §3 C08", note=MC_NOTE),
     "C18": dict(cat="model_checking", tech="exhaustive short strings + all Unicode scalars; singleton product implDFA x position-in-text",
-                text="Every string up to length L over the meta alphabet, every subset of the metas and every Unicode scalar value: escape, build, text(), self-match, and L(glob) = {s} decided on the product of the implementation's automaton with a position-in-text monitor over all paths.",
+                text="Every string up to length L over the meta alphabet, every subset of the metas, every Unicode scalar value and a family of long texts just below the size limit: escape, build, text(), self-match, and L(glob) = {s} decided on the product of the implementation's automaton with a position-in-text monitor over all paths.",
                 ref="DESIGN.md §3 C18", note=MC_NOTE),
     "C09": dict(cat="model_checking", tech="explicit-state BFS of implDFA x canonical-ancestor monitor, all paths",
                 text="For every expression of the bounded program space (and small any() combinators) that reports is_exhaustive()=Always, all reachable states of the product of the implementation's compiled automaton with a canonical-path / accepted-proper-ancestor monitor are explored; a non-accepting canonical state beneath an accepted ancestor is a counterexample for all path lengths.",
